@@ -28,7 +28,7 @@ META = {
              "[sort_requires], broken TOML, through stylua.toml / .stylua.toml / --config-path, targets as directory / file / "
              "stdin. Seeded: random multi-option configurations through four carriers. Distinct = (option, value, carrier) or "
              "(malformation, carrier, target shape); non-trivial = the value changed the bytes relative to the default "
-             "configuration or to the overridden stylua.toml value, or the malformed file governed an unformatted target."),
+             "configuration or to the overridden stylua.toml value, or the malformed file governed an unformatted target. Carriers added: flags with --no-editorconfig, and toml / flags / .editorconfig ([*.lua] and [*]) for code piped through stdin with and without --stdin-filepath."),
     "assumptions": [
         "documented values = README option table; EditorConfig keys and spellings = the table in src/editorconfig.rs plus the "
         "EditorConfig specification for the standard keys (the README only links to editorconfig.org)",
